@@ -1035,3 +1035,101 @@ def rule_mean1(ctx, rels, scope=None, min_sites=0):
         raise AnalysisError(f"MEAN1: {n_s} mean idiom(s) found, {min_sites} "
                             "confirmed by hand (stale table)")
     return n_s
+
+
+# ---------------------------------------------------------------------------
+def rule_tp1(ctx):
+    r = ctx.r
+    r.rule("TP1", "Representation.tensor_product pairs the two factors' "
+                  "generator images BY NAME: the other representation is "
+                  "only subscripted (rep[g] / rep.generators[g]) with a "
+                  "generator taken from self's iteration, never iterated "
+                  "itself (two dictionaries need not share an insertion "
+                  "order)")
+    f = ctx.p.get_function(REP, "Representation.tensor_product")
+    r.analysed(f)
+    other = f.params[1] if len(f.params) > 1 else "rep"
+    iters = []
+    for n in ast.walk(f.node):
+        its = []
+        if isinstance(n, ast.For):
+            its.append(n.iter)
+        if isinstance(n, (ast.ListComp, ast.GeneratorExp, ast.SetComp,
+                          ast.DictComp)):
+            its += [g.iter for g in n.generators]
+        if isinstance(n, ast.Call) and dotted(n.func) in ("zip", "map",
+                                                          "list", "sorted",
+                                                          "enumerate"):
+            its += list(n.args)
+        for it in its:
+            for x in ast.walk(it):
+                if isinstance(x, ast.Name) and x.id == other:
+                    # membership tests / len() are not pairings
+                    iters.append((n, it))
+    # the symmetric-generator guard (`set(rep.generators) != ...`) compares
+    # key sets and is not an iteration that pairs images
+    iters = [(n, it) for n, it in iters
+             if not any(isinstance(p, ast.Compare)
+                        for p in _ancestors(f, it))]
+    if not iters:
+        r.ok("TP1", "tensor_product", loc(f, f.node), "",
+             f"`{other}` is only looked up by generator name")
+    else:
+        n, it = iters[0]
+        r.violation(
+            "TP1", f"{f.fq}|iterates-other", loc(f, it), dotted(it)[:120],
+            f"the images of `{other}` are taken in `{other}`'s own "
+            "iteration order and paired positionally with self's: if the "
+            "two representations had their generators assigned in "
+            "different orders, tensor[g] = kron(self[g], other[g']) for "
+            "g' != g", instance="tensor_product")
+
+
+def _ancestors(f, node):
+    parents = f.module.parents
+    cur = node
+    while cur in parents and cur is not f.node:
+        cur = parents[cur]
+        yield cur
+
+
+def rule_pm1(ctx, rels, scope=None):
+    r = ctx.r
+    r.rule("PM1", "np.putmask(a, mask, values) reads `values` at the "
+                  "positions of `a` (cycling it if shorter): values "
+                  "computed on the selection `x[mask]` are misaligned; "
+                  "np.place / a[mask] = ... are the forms that consume "
+                  "one value per selected entry")
+    n_s = 0
+    for rel in rels:
+        m = ctx.p.module_by_rel(rel)
+        for f in ctx.p.all_functions:
+            if f.module is not m:
+                continue
+            if scope is not None and f not in scope:
+                continue
+            for n in ast.walk(f.node):
+                if not (isinstance(n, ast.Call)
+                        and dotted(n.func) in ("np.putmask", "numpy.putmask")
+                        and len(n.args) >= 3):
+                    continue
+                n_s += 1
+                r.analysed(f)
+                mask = dotted(n.args[1])
+                compressed = [x for x in ast.walk(n.args[2])
+                              if isinstance(x, ast.Subscript)
+                              and dotted(x.slice) == mask]
+                inst = f"{f.qualname}:putmask({dotted(n.args[0])})"
+                if not compressed:
+                    r.ok("PM1", inst, loc(f, n), dotted(n)[:100],
+                         "values are not a masked selection")
+                else:
+                    r.violation(
+                        "PM1", f"{f.fq}|putmask:{dotted(n.args[0])}",
+                        loc(f, n), dotted(n)[:140],
+                        f"`{dotted(compressed[0])}` has one entry per "
+                        "selected position, but np.putmask indexes values "
+                        "by absolute position: every selected entry after "
+                        "the first unselected one receives another "
+                        "entry's value", instance=inst)
+    return n_s
